@@ -310,6 +310,12 @@ pub fn fixed_point(ty: Ty, b: &[u8], tagged: bool) -> Result<Option<Vec<u8>>, (S
         Err(k) => return Err(("second-encode-failed".into(), format!("second encoding failed with {}", k.name()))),
     };
     if b2 != b1 {
+        // Miri gives the NaN produced by a float cast (f64 -> f16 when ciborium picks the shortest
+        // float) a non-deterministic sign and payload, as the language semantics allow; hardware
+        // does not. Under Miri only, two encodings that differ in NaN bits alone are the same.
+        if cfg!(miri) && b2.len() == b1.len() && matches!((crate::rcbor::decode(&b1), crate::rcbor::decode(&b2)), (Ok(x), Ok(y)) if x == y) {
+            return Ok(Some(b1));
+        }
         return Err(("not-idempotent".into(), format!("encoding is not a fixed point after one step: b' = {} b'' = {}", hex(&b1), hex(&b2))));
     }
     Ok(Some(b1))
